@@ -165,6 +165,8 @@ class FatAreaAdapter(Adapter):
                         break
 
                 subpath_links.append(subpath_index)
+                if len(subpath_links) > FAT_NUM_ENTRIES:
+                    raise ConstructError("Loop in FAT.")
 
                 if FAT_IS_END_F(value):
                     add_to_sector_links(subpath_links, sector_links)
